@@ -31,10 +31,18 @@ variable {α : Type}
 /-- the response went through the encoder -/
 def Encoded (st : St α) : Prop := plainOnly st.log = false
 
-/-- every finished response has one of the two legal shapes -/
-theorem final_shape (cfg : Cfg α) (name : Bytes) (ic : Bool) (ops : List (Op α))
+/-- every finished response of a handler that never answers 101 has one of the two legal shapes -/
+theorem final_shape_no101 (cfg : Cfg α) (name : Bytes) (ic : Bool) (ops : List (Op α))
     (h101 : No101 ops) : Shape cfg name (runWrapped cfg name ic ops) :=
   shape_rwClose (inv_run ops _ h101 (inv_init cfg name ic))
+
+/-- **every finished response, of every script**, has one of the two legal shapes — or was fixed as
+    `101 Switching Protocols` before anything was committed (then no HTTP body follows at all) -/
+theorem final_shape (cfg : Cfg α) (name : Bytes) (ic : Bool) (ops : List (Op α)) :
+    Shape cfg name (runWrapped cfg name ic ops) ∨ Final101 (runWrapped cfg name ic ops) := by
+  rcases inv_or_101_run ops (St.init name ic) (inv_init cfg name ic) with h | h
+  · exact Or.inl (shape_rwClose h)
+  · exact Or.inr (final101_rwClose cfg _ h)
 
 /-- **decision once.** As soon as the writer has committed the header (`wroteHeader`, which happens before the
     first body byte is handed on: see `no_body_before_commit`) the choice encode / identity never changes,
@@ -45,22 +53,25 @@ theorem decision_once (cfg : Cfg α) (st : St α) (ops : List (Op α)) (hw : st.
 
 /-- nothing but (1xx) headers reaches the client, and no encoder is open, before the header is committed -/
 theorem no_body_before_commit (cfg : Cfg α) (name : Bytes) (ic : Bool) (ops : List (Op α))
-    (h101 : No101 ops)
     (hw : (run cfg (St.init name ic) ops).wroteHeader = false) :
-    headerOnly (run cfg (St.init name ic) ops).log = true ∧ (run cfg (St.init name ic) ops).encOpen = false ∧
-      (run cfg (St.init name ic) ops).sent = none :=
-  have h := (inv_run ops _ h101 (inv_init cfg name ic)).pre hw
-  ⟨h.2.2, h.2.1, h.1⟩
+    (headerOnly (run cfg (St.init name ic) ops).log = true ∧ (run cfg (St.init name ic) ops).encOpen = false ∧
+      (run cfg (St.init name ic) ops).sent = none) ∨ Final101 (run cfg (St.init name ic) ops) := by
+  rcases inv_or_101_run ops (St.init name ic) (inv_init cfg name ic) with h | h
+  · have h' := h.pre hw
+    exact Or.inl ⟨h'.2.2, h'.2.1, h'.1⟩
+  · exact Or.inr h
 
 /-- **no mixed streams.** The finished response is either plain bytes only, or encoder output only that is
     terminated by the encoder's `Close`. -/
-theorem no_mixed_stream (cfg : Cfg α) (name : Bytes) (ic : Bool) (ops : List (Op α))
-    (h101 : No101 ops) :
+theorem no_mixed_stream (cfg : Cfg α) (name : Bytes) (ic : Bool) (ops : List (Op α)) :
     plainOnly (runWrapped cfg name ic ops).log = true ∨
-      ∃ rest, (runWrapped cfg name ic ops).log = Ev.ec :: rest ∧ encOnly rest = true := by
-  cases final_shape cfg name ic ops h101 with
-  | identity h => exact Or.inl h
-  | encoded rest _ _ _ hlog henc _ _ _ => exact Or.inr ⟨rest, hlog, henc⟩
+      (∃ rest, (runWrapped cfg name ic ops).log = Ev.ec :: rest ∧ encOnly rest = true) ∨
+      Final101 (runWrapped cfg name ic ops) := by
+  rcases final_shape cfg name ic ops with hs | h
+  · cases hs with
+    | identity h => exact Or.inl h
+    | encoded rest _ _ _ hlog henc _ _ _ => exact Or.inr (Or.inl ⟨rest, hlog, henc⟩)
+  · exact Or.inr (Or.inr h)
 
 /-- the handler's payloads are handed on completely, in order, exactly once — in every configuration -/
 theorem nothing_lost_or_duplicated (cfg : Cfg α) (name : Bytes) (ic : Bool) (ops : List (Op α)) :
@@ -86,7 +97,7 @@ theorem clientBody_of_shape (cfg : Cfg α) (name : Bytes) (st : St α) (hsh : Sh
 theorem transparent_wrapped (cfg : Cfg α) (name : Bytes) (ic : Bool) (ops : List (Op α))
     (h101 : No101 ops) :
     clientBody (some name) (runWrapped cfg name ic ops) = some (written cfg ops) := by
-  rw [clientBody_of_shape cfg name _ (final_shape cfg name ic ops h101), payloads_runWrapped]
+  rw [clientBody_of_shape cfg name _ (final_shape_no101 cfg name ic ops h101), payloads_runWrapped]
 
 /-- **transparency without any hypothesis on the script**, with net/http's body rule as an explicit outcome:
     for EVERY script (101 Switching Protocols included), every configuration, HEAD or not — the client of a real
@@ -111,6 +122,22 @@ theorem transparent_total (cfg : Cfg α) (name : Bytes) (ic head : Bool) (ops : 
         have e' : (runWrapped cfg name ic ops).sent = some (101, hh) := e
         rw [e']; rfl
       simp [this]
+
+/-- the same for the whole handler — whatever `ServeHTTP` negotiates for whatever request, wrapped or not -/
+theorem transparent_total_serve (cfg : Cfg α) (offered prefer : List Bytes) (req : Req) (head : Bool)
+    (ops : List (Op α)) :
+    delivered head (serve cfg offered prefer req ops).sel (serve cfg offered prefer req ops).final =
+      some (if head || noBodyStatus (serve cfg offered prefer req ops).final then [] else written cfg ops) := by
+  unfold serve
+  split
+  · exact transparent_total cfg _ _ head ops
+  · obtain ⟨a, b⟩ := runPlain_spec cfg ops (St.init [] req.isConnect) rfl
+    unfold delivered
+    by_cases hc : (head || noBodyStatus (runPlain cfg req.isConnect ops)) = true
+    · simp [hc]
+    · rw [if_neg hc, if_neg hc]
+      simp only [runPlain, clientBody, a, if_true, b]
+      simp [St.init, payloads]
 
 /-- a handler that answers `101 Switching Protocols` before anything else is committed has fixed the response:
     101 is what the client is told, whatever the handler writes afterwards — the body clauses do not apply -/
@@ -200,21 +227,25 @@ theorem chosen_is_most_preferred (offered prefer : List Bytes) (req : Req) (c : 
     the header the client received is exactly `init`'s edit of a handler header `h0` that was not already
     encoded, carried no `no-transform`, satisfied the response matcher, and met the minimum length. -/
 theorem encoded_only_if (cfg : Cfg α) (name : Bytes) (ic : Bool) (ops : List (Op α))
-    (h101 : No101 ops) (henc : Encoded (runWrapped cfg name ic ops)) :
-    ∃ s sc h0 rest, (runWrapped cfg name ic ops).sent = some (s, initHdr name h0) ∧
-      (runWrapped cfg name ic ops).log = Ev.ec :: rest ∧ InitOk cfg sc h0 ∧ MinLenOk cfg h0 rest := by
-  cases final_shape cfg name ic ops h101 with
-  | identity h => simp [Encoded, h] at henc
-  | encoded rest s sc h0 hlog _ hsent hok hm => exact ⟨s, sc, h0, rest, hsent, hlog, hok, hm⟩
+    (henc : Encoded (runWrapped cfg name ic ops)) :
+    (∃ s sc h0 rest, (runWrapped cfg name ic ops).sent = some (s, initHdr name h0) ∧
+      (runWrapped cfg name ic ops).log = Ev.ec :: rest ∧ InitOk cfg sc h0 ∧ MinLenOk cfg h0 rest) ∨
+      Final101 (runWrapped cfg name ic ops) := by
+  rcases final_shape cfg name ic ops with hs | h
+  · cases hs with
+    | identity h => simp [Encoded, h] at henc
+    | encoded rest s sc h0 hlog _ hsent hok hm => exact Or.inl ⟨s, sc, h0, rest, hsent, hlog, hok, hm⟩
+  · exact Or.inr h
 
 /-- **headers when encoded.** `Content-Encoding` is exactly the coding, `Vary` lists `Accept-Encoding`, no
     `Content-Length` (and no `Accept-Ranges`) remains — in the header the client received. -/
 theorem headers_when_encoded (cfg : Cfg α) (name : Bytes) (ic : Bool) (ops : List (Op α))
-    (h101 : No101 ops) (henc : Encoded (runWrapped cfg name ic ops)) :
-    ∃ s h, (runWrapped cfg name ic ops).sent = some (s, h) ∧ hValues h kCE = [name] ∧ hasVary h = true ∧
-      hValues h kCL = [] ∧ hValues h kAR = [] := by
-  obtain ⟨s, _, h0, _, hsent, _, _, _⟩ := encoded_only_if cfg name ic ops h101 henc
-  exact ⟨s, _, hsent, initHdr_CE name h0, initHdr_vary name h0, initHdr_CL name h0, initHdr_AR name h0⟩
+    (henc : Encoded (runWrapped cfg name ic ops)) :
+    (∃ s h, (runWrapped cfg name ic ops).sent = some (s, h) ∧ hValues h kCE = [name] ∧ hasVary h = true ∧
+      hValues h kCL = [] ∧ hValues h kAR = []) ∨ Final101 (runWrapped cfg name ic ops) := by
+  rcases encoded_only_if cfg name ic ops henc with ⟨s, _, h0, _, hsent, _, _, _⟩ | h
+  · exact Or.inl ⟨s, _, hsent, initHdr_CE name h0, initHdr_vary name h0, initHdr_CL name h0, initHdr_AR name h0⟩
+  · exact Or.inr h
 
 /-- what `init` does to the other headers: nothing. -/
 theorem init_touches_nothing_else (name : Bytes) (h0 : Hdr) (k : Bytes)
